@@ -380,3 +380,53 @@ Proof.
     destruct Hr as [<-|[<-|[]]], Hr' as [<-|[<-|[]]]; reflexivity.
 Qed.
 Print Assumptions C14_l2gw_handoff_nonvacuous.
+
+(* ---------------- the published snapshot (pkg/configmgr as a step model) ----------------
+   Every state reached by Commit / ApplyLoadedConfig from the initial empty configuration has its index built from the
+   running configuration, and that configuration passed ValidateMatchIndex: "rejected before commit" as a state
+   invariant (a rejected candidate publishes nothing, C14_cm_commit_cases). *)
+Theorem C14_cm_invariant :
+  forall cfgs, cm_ok (fold_left cm_commit cfgs cm_init).
+Proof. intros cfgs. apply cm_commits_ok, cm_init_ok. Qed.
+Print Assumptions C14_cm_invariant.
+
+Theorem C14_cm_commit_cases :
+  forall st cfg,
+  (validate_strict cfg <> VOk /\ cm_commit st cfg = st) \/
+  (validate_strict cfg = VOk /\ running (cm_commit st cfg) = cfg /\ snap (cm_commit st cfg) = build cfg).
+Proof. exact cm_commit_cases. Qed.
+Print Assumptions C14_cm_commit_cases.
+
+(* "at most one group": in a published state a covering exact claim IS the answer, and a covering wildcard claim is
+   the answer when the S-VLAN has no exact claim for this C-VLAN — no first-wins arbitration is left *)
+Theorem C14_cm_unique_exact :
+  forall st s c cl, cm_ok st -> In cl (claims (running st)) -> c_svlan cl = s -> c_sel cl = SelExact c ->
+  cm_lookup st s c = Some (c_name cl, c_idx cl).
+Proof. exact cm_unique_exact. Qed.
+Print Assumptions C14_cm_unique_exact.
+
+Theorem C14_cm_unique_wildcard :
+  forall st s c cl, cm_ok st -> In cl (claims (running st)) -> c_svlan cl = s -> c_sel cl = SelAny ->
+  (forall cl', In cl' (claims (running st)) -> c_svlan cl' = s -> c_sel cl' <> SelExact c) ->
+  cm_lookup st s c = Some (c_name cl, c_idx cl).
+Proof. exact cm_unique_wildcard. Qed.
+Print Assumptions C14_cm_unique_wildcard.
+
+(* "the same one on every lookup and every rebuild", with concurrent readers: along ANY interleaving of commits, pointer
+   loads and lookups by any number of readers, every answer is the answer of ONE published generation as a whole (the one
+   running when that reader loaded the pointer), and every generation passed ValidateMatchIndex — never a mixture of two *)
+Theorem C14_cm_reads_one_generation :
+  forall es o, In (Some o) (cm_run (cm_init, fun _ => running cm_init) es) ->
+  exists g s c, In g (cm_generations cm_init es) /\ validate_strict g = VOk /\ o = lookup (build g) s c.
+Proof. exact cm_reads_from_init. Qed.
+Print Assumptions C14_cm_reads_one_generation.
+
+Example C14_cm_nonvacuous :
+  let good := strip pol_cfg in
+  let tr := [ELoad 1; ECommit good; EUse 1 100 20; ECommit ex_cfg; ELoad 1; EUse 1 100 20; ELoad 2; EUse 2 10 100] in
+  cm_run (cm_init, fun _ => running cm_init) tr
+    = [None; None; Some None; None; None; Some (Some ([119]%N, 1%nat)); None; Some None] /\
+  cm_generations cm_init tr = [[]; good; good] /\           (* ex_cfg collides: not published *)
+  cm_commit cm_init ex_cfg = cm_init /\ running (cm_commit cm_init good) = good.
+Proof. vm_compute. repeat split; reflexivity. Qed.
+Print Assumptions C14_cm_nonvacuous.
